@@ -3,7 +3,7 @@
 Deviation-bounded exhaustive exploration of budget configurations.  A default budget (2 statement sources with
 different layouts, one with an extra field and {-amount}; a supplemental source queried by a rule; a .rules
 file with a transform, a source-dependent rule, a field rule, an order-sensitive rule pair; views) and EVERY
-budget that differs from it in <= B settings drawn from 35 single-setting deviations (per source: layout,
+budget that differs from it in <= B settings drawn from 38 single-setting deviations (per source: layout,
 delimiter, header, decimal separator, sign mode, name, missing file, directory instead of file, invalid UTF-8;
 rules file kind; rule mode; views; currency format; number of sources).  Each budget is materialised (statement
 text rendered from abstract rows under the chosen settings) and run as `tally up --format json -v`,
@@ -28,7 +28,7 @@ from mc.ref import money
 PROPERTY = "C11"
 LEVEL = "exploration"
 DETERMINISM_CASES = 1
-RULE = ("cases = the default budget and every budget at <= B deviations from it (B=2 quick, 3 thorough) over 35 single-setting deviations (combinations touching "
+RULE = ("cases = the default budget and every budget at <= B deviations from it (B=2 quick, 3 thorough) over 38 single-setting deviations (combinations touching "
         "the same setting twice are skipped); each budget runs 3 CLI commands in fresh processes. non-trivial = budgets whose expected analysis differs from the "
         "default budget's (the deviation is observable); budgets distinct by construction")
 ASSUMPTIONS = ["the expected report is assembled from abstract rows with library functions called directly (normalize_merchant, analyze_transactions, classify_by_sections); "
@@ -73,7 +73,7 @@ subcategory: Streaming
 tags: video
 
 [Ordered]
-let: hits = [r.item for r in orders if r.amount == amount]
+let: hits = [r.item for r in ORDERS if r.amount == amount]
 match: len(hits) > 0
 category: Shopping
 subcategory: Orders
@@ -137,7 +137,7 @@ def deviations():
         devs.append((f"{s}.name", f"{s}:renamed", lambda c, s=s: c["sources"][s].__setitem__("name", "Card" if s == "Bank" else "Visa")))
     for r in ("csv", "none", "nowhere"):
         devs.append(("rules", f"rules:{r}", lambda c, r=r: c.__setitem__("rules", r)))
-    for m in ("most_specific", "bogus", "first_match"):
+    for m in ("most_specific", "bogus", "first_match", "First_Match", "first-match", "MOST_SPECIFIC"):
         devs.append(("mode", f"mode:{m}", lambda c, m=m: c.__setitem__("mode", m)))
     for v in ("none", "broken"):
         devs.append(("views", f"views:{v}", lambda c, v=v: c.__setitem__("views", v)))
